@@ -27,13 +27,45 @@ type Op struct {
 	Slow   bool     `json:"slow,omitempty"` // join with a 4 KiB receive buffer (a reader that will lag)
 	Fill   int      `json:"fill,omitempty"` // send: bytes of filler derived from (id, sender, seq) after the header
 	NB     bool     `json:"nb,omitempty"`   // send: no waiting afterwards (burst)
+	PX     string   `json:"px,omitempty"`   // join: the token's connection-type claim; "" = session, "(empty)" = the empty string
+	Via    string   `json:"via,omitempty"`  // join: "api" = present the code on the URI the access API returned, else on /session/{topic}
+	Wrap   int      `json:"wrap,omitempty"` // send: 0 plain payload, 1.. wrapped as a stats command (JSON)
+}
+
+func (o Op) prefix() string {
+	switch o.PX {
+	case "":
+		return "session"
+	case "(empty)":
+		return ""
+	}
+	return o.PX
+}
+
+// path on which the code is presented
+func (o Op) path() string {
+	if o.Via == "api" {
+		return "/" + o.prefix() + "/" + o.TT
+	}
+	return "/session/" + o.TT
 }
 
 func (o Op) payload() []byte {
 	if o.Fill > 0 {
 		return hubkit.PayloadFill(o.ID, o.N, o.Seq, o.TT, o.Fill)
 	}
-	return hubkit.Payload(o.ID, o.N, o.Seq, o.TT)
+	tag := string(hubkit.Payload(o.ID, o.N, o.Seq, o.TT))
+	switch o.Wrap {
+	case 1:
+		return []byte(`{"cmd":"update","note":"` + tag + `"}`)
+	case 2:
+		return []byte(`{"CMD":"update","note":"` + tag + `"}`)
+	case 3:
+		return []byte(`{"note":"` + tag + `","Cmd":"update","extra":{"a":[1,2]}}`)
+	case 4:
+		return []byte(`{"cmd":"UPDATE","note":"` + tag + `"}`)
+	}
+	return []byte(tag)
 }
 
 type Seen struct {
@@ -69,11 +101,15 @@ func coqStrs(ss []string) string {
 func (o Op) coq() string {
 	switch o.K {
 	case "join", "connect":
-		return lib.App("OJoin", lib.App("mkreq", lib.N(o.N), lib.Str("/session/"+o.TT), lib.Str(o.TT), coqStrs(o.Scopes), lib.Nat(bufferSize)))
+		return lib.App("OJoin", lib.App("mkreq", lib.N(o.N), lib.Str(o.path()), lib.Str(o.TT), coqStrs(o.Scopes), lib.Nat(bufferSize)))
 	case "leave":
 		return lib.App("OLeave", lib.N(o.N))
 	}
-	return lib.App("OSend", lib.N(o.N), lib.N(uint64(o.MT)), lib.N(uint64(len(hubkit.PayloadFill(o.ID, o.N, o.Seq, o.TT, 0))+o.Fill)), "["+lib.N(o.ID)+"]")
+	size := len(hubkit.PayloadFill(o.ID, o.N, o.Seq, o.TT, 0)) + o.Fill
+	if o.Fill == 0 {
+		size = len(o.payload())
+	}
+	return lib.App("OSend", lib.N(o.N), lib.N(uint64(o.MT)), lib.N(uint64(size)), "["+lib.N(o.ID)+"]")
 }
 
 func (c Case) coq() string {
@@ -335,12 +371,14 @@ func needlesOf(c *Case) []needle {
 	return ns
 }
 
-func newDigest(ns []needle) func(*hubkit.Frame) {
+func newDigest(ns []needle, stats bool) func(*hubkit.Frame) {
 	return func(f *hubkit.Frame) {
 		tags, junk := hubkit.ParseTags(f.Data)
-		if junk > 0 {
+		if junk > 0 && !stats {
 			tags = append(tags, hubkit.Tag{ID: 0})
 		}
+		// on topic stats the relay's own reporter publishes JSON reports, and commands are JSON around
+		// the self-identifying payload: bytes outside payloads are expected there and not compared
 		fi := finfo{tags: tags}
 		// a frame that is, byte for byte, a sequence of well-formed payloads with their own fillers has no
 		// room for anything else (its senders are judged by the headers); any other frame is searched
@@ -364,6 +402,71 @@ func tagsOf(p *hubkit.Peer) []hubkit.Tag {
 		out = append(out, f.Info.(finfo).tags...)
 	}
 	return out
+}
+
+// genPrefix: tokens whose connection-type claim is not "session" (shell, Session, other, empty)
+// crossed with scope sets that include the host/client scopes of the shell service; the code is
+// presented on /session/{topic} or on the URI the access API returned. Whatever the claim says, a
+// connection without the exact scopes read or write must not be registered on the relay.
+func genPrefix(r *lib.Rng) []Op {
+	tt := []string{"t4", "px/1", "s"}[r.Intn(3)]
+	pxs := []string{"shell", "shell", "Session", "other", "(empty)", ""}
+	sets := [][]string{{"host"}, {"client"}, {"host", "client"}, {"read"}, {"write"}, {"read", "host"}, {"host", "write"},
+		{"read", "write"}, {"Read", "host"}, {"client", "readwrite"}, {"host", "relay:admin"}}
+	type part struct {
+		name uint64
+	}
+	var ops []Op
+	var parts []uint64
+	join := func(px, via string, scopes []string) {
+		nextName++
+		ops = append(ops, Op{K: "join", N: nextName, TT: tt, Scopes: scopes, PX: px, Via: via})
+		parts = append(parts, nextName)
+	}
+	join("", "", []string{"read", "write"})
+	join([]string{"", "shell"}[r.Intn(2)], "", []string{"read"})
+	for k := r.Range(2, 4); k > 0; k-- {
+		join(pxs[r.Intn(len(pxs))], []string{"", "", "api"}[r.Intn(3)], sets[r.Intn(len(sets))])
+	}
+	seq := 0
+	for i, n := 0, r.Range(6, 12); i < n; i++ {
+		seq++
+		nextID++
+		ops = append(ops, Op{K: "send", N: parts[r.Intn(len(parts))], TT: tt, MT: 1 + r.Intn(2), ID: nextID, Seq: seq})
+	}
+	return ops
+}
+
+// genStats: participants on the relay's own topic "stats" (where its status reporter listens for
+// {"cmd":"update"} commands and publishes reports): connections without the write scope send such
+// commands in several spellings, as text and binary; none of it may reach any other subscriber.
+func genStats(r *lib.Rng) []Op {
+	tt := "stats"
+	var ops []Op
+	var parts []uint64
+	join := func(scopes []string) {
+		nextName++
+		ops = append(ops, Op{K: "join", N: nextName, TT: tt, Scopes: scopes})
+		parts = append(parts, nextName)
+	}
+	join([]string{"read", "write"})
+	join([]string{"read"})
+	join([][]string{{"read", "Write"}, {"read", "stats"}, {"read", "relay:stats"}, {"read", "host"}}[r.Intn(4)])
+	if r.Bool() {
+		join([]string{"read"})
+	}
+	seq := 0
+	for i, n := 0, r.Range(8, 14); i < n; i++ {
+		seq++
+		nextID++
+		who := parts[r.Intn(len(parts))]
+		wrap := r.Intn(5)
+		if who == parts[0] && r.Bool() {
+			wrap = 0
+		}
+		ops = append(ops, Op{K: "send", N: who, TT: tt, MT: 1 + r.Intn(2), ID: nextID, Seq: seq, Wrap: wrap})
+	}
+	return ops
 }
 
 // genLag: a read-only reader lags (4 KiB receive buffer, stops reading; large frames from a writer
@@ -435,7 +538,7 @@ func runCase(k *hubkit.Kit, c *Case, res *lib.Result) []*hubkit.Peer {
 	var order []*hubkit.Peer
 	expected := map[uint64]int{}
 	flags := map[uint64]hubkit.Report{}
-	digest := newDigest(needlesOf(c))
+	digest := newDigest(needlesOf(c), c.Kind == "stats")
 	stalled := map[uint64]bool{}
 	waitAll := func() {
 		for _, q := range order {
@@ -467,7 +570,13 @@ func runCase(k *hubkit.Kit, c *Case, res *lib.Result) []*hubkit.Peer {
 				if o.Slow {
 					buf = 4096
 				}
-				p = k.JoinBuf(o.N, o.TT, "/session/"+o.TT, o.Scopes, digest, buf)
+				if o.PX != "" || o.Via != "" {
+					p = k.IssuePrefix(o.N, o.TT, o.Scopes, o.prefix())
+					k.Connect(p, o.path(), digest, buf)
+					res.Count("join:prefix-" + o.PX + "-via-" + o.Via + ":" + map[bool]string{true: "registered", false: "refused-" + p.Refused}[p.Refused == ""])
+				} else {
+					p = k.JoinBuf(o.N, o.TT, "/session/"+o.TT, o.Scopes, digest, buf)
+				}
 				peers[o.N] = p
 				order = append(order, p)
 			} else {
@@ -621,6 +730,12 @@ func main() {
 		for i, m := 0, a.Pick(30, 240); i < m; i++ {
 			cases = append(cases, Case{Ops: genLag(rng.Fork()), Kind: "lag"})
 		}
+		for i, m := 0, a.Pick(60, 400); i < m; i++ {
+			cases = append(cases, Case{Ops: genPrefix(rng.Fork()), Kind: "prefix"})
+		}
+		for i, m := 0, a.Pick(40, 300); i < m; i++ {
+			cases = append(cases, Case{Ops: genStats(rng.Fork()), Kind: "stats"})
+		}
 	}
 	coq := make([]string, len(cases))
 	for i := range cases {
@@ -633,8 +748,8 @@ func main() {
 		c := cases[i]
 		coq[i] = c.coq()
 		res.CountN("ops", len(c.Ops))
-		if c.Kind == "lag" {
-			res.Count("kind:lag")
+		if c.Kind != "" {
+			res.Count("kind:" + c.Kind)
 		}
 		if c.Discard != "" {
 			res.Count("discarded:" + c.Discard)
